@@ -1,7 +1,7 @@
 (** C12 — malformed AML is rejected with an error, never a crash, hang or stray pointer.
     Statements only; every proof is [exact <lemma>] (Aml/LexProofs.v). *)
 From Coq Require Import NArith List.
-From FF Require Import Lib.Word Gen.Consts_device_acpi_aml Aml.Stream Aml.Lex Aml.LexProofs Aml.Tree Aml.TreeSpec Aml.Parser Aml.ParserProofs Aml.ParserProofsTop Aml.ParserTotalFirst Aml.ParserTotalConn Aml.ParserTotalTop.
+From FF Require Import Lib.Word Gen.Consts_device_acpi_aml Aml.Stream Aml.Lex Aml.LexProofs Aml.Tree Aml.TreeSpec Aml.Parser Aml.ParserProofs Aml.ParserProofsTop Aml.ParserTotalFirst Aml.ParserTotalConn Aml.ParserTotalTop Aml.ParserTotalNonNamed Aml.ParserTotalCalls Aml.ParserTotalReloc.
 Import ListNotations.
 Local Open Scope N_scope.
 
@@ -206,3 +206,79 @@ Theorem C12_parse_total_partial_nopanic_first_pass_connectNamedObjArgs :
     end.
 Proof. exact passes12_never_panic. Qed.
 Print Assumptions C12_parse_total_partial_nopanic_first_pass_connectNamedObjArgs.
+
+(** ---- resolveMethodCalls and connectNonNamedObjArgs ---- *)
+
+(** [parse_total_partial] (8), passes covered: connectNonNamedObjArgs (the last pass) with connectNonNamedObjArg and
+    attachSiblingsAsArgs(useParent = true): an object that lacks arguments takes the siblings that follow it and, when
+    those are used up, the siblings that follow its parent.  From ANY state whose pool satisfies [R], valid opcode-table
+    indexes and [pool_ok], started at a live root object: never a panic (no nil parent in detach - an object with a next
+    sibling has a parent; no illegal append - a sibling of the parent is not an ancestor: depth argument), and [R] and
+    both invariants hold again.  Fuel exhaustion is not excluded. *)
+Theorem C12_parse_total_partial_nopanic_connectNonNamedObjArgs :
+  forall (fuel : nat) (x : N) (s : pstate) (g : ghost),
+    R (p_tree s) g ->
+    (forall i o, TreeSpec.get (p_tree s) i = Some o -> o_opcode o <> opFreed -> opInfo (o_infoIndex o) <> None) ->
+    pool_ok (p_tables s) (p_tree s) -> glive g x -> groot g x ->
+    match connectNonNamedObjArgs fuel x s with
+    | Ok (_, s') => exists g', R (p_tree s') g' /\
+        (forall i o, TreeSpec.get (p_tree s') i = Some o -> o_opcode o <> opFreed -> opInfo (o_infoIndex o) <> None) /\
+        pool_ok (p_tables s') (p_tree s')
+    | Panic => False
+    | OutOfFuel => True
+    end.
+Proof. exact connectNonNamedObjArgs_never_panics. Qed.
+Print Assumptions C12_parse_total_partial_nopanic_connectNonNamedObjArgs.
+
+(** [parse_total_partial] (9), passes covered: resolveMethodCalls (with the Find lookup of C13, the rewriting of
+    name-path objects into method calls / resolved references / plain name paths, ArgAt of the method's flags,
+    attachSiblingsAsArgs and connectNonNamedObjArg).  From ANY state whose pool satisfies [R], valid opcode-table indexes,
+    [pool_ok], has a live root at slot 0, and in which every live pOpIntNamePathOrMethodCall object carries a []byte
+    value (what parseNamePathOrMethodCall stores; the pass type-asserts it: argObj.value.([]byte)): never a panic, and all
+    of these hold again when it returns.  That typing hypothesis is NOT yet shown to be established by the earlier
+    passes; fuel exhaustion is not excluded. *)
+Theorem C12_parse_total_partial_nopanic_resolveMethodCalls :
+  forall (fuel : nat) (s : pstate) (g : ghost),
+    R (p_tree s) g ->
+    (forall i o, TreeSpec.get (p_tree s) i = Some o -> o_opcode o <> opFreed -> opInfo (o_infoIndex o) <> None) ->
+    pool_ok (p_tables s) (p_tree s) ->
+    (forall i o, TreeSpec.get (p_tree s) i = Some o -> o_opcode o <> opFreed -> o_opcode o = aml_pOpIntNamePathOrMethodCall ->
+                 exists tbl sl, o_value o = Some (VBytes tbl sl)) ->
+    glive g 0 -> groot g 0 ->
+    match resolveMethodCalls fuel 0 s with
+    | Ok (_, s') => exists g', R (p_tree s') g' /\
+        (forall i o, TreeSpec.get (p_tree s') i = Some o -> o_opcode o <> opFreed -> opInfo (o_infoIndex o) <> None) /\
+        pool_ok (p_tables s') (p_tree s') /\
+        (forall i o, TreeSpec.get (p_tree s') i = Some o -> o_opcode o <> opFreed -> o_opcode o = aml_pOpIntNamePathOrMethodCall ->
+                     exists tbl sl, o_value o = Some (VBytes tbl sl))
+    | Panic => False
+    | OutOfFuel => True
+    end.
+Proof. exact resolveMethodCalls_never_panics. Qed.
+Print Assumptions C12_parse_total_partial_nopanic_resolveMethodCalls.
+
+(** ---- relocateNamedObjects ---- *)
+
+(** [parse_total_partial] (10), passes covered: relocateNamedObjects (the second half of each resolve pass; with
+    ClosestNamedAncestor and Find of C13, scopeOf / nestedScope, the insideSelf check of commit 648a1d7, detach + append of
+    the named object below the scope its path prefix names, and the rewrite of its name path to the last segment).  From ANY
+    state whose pool satisfies [R], valid opcode-table indexes and [pool_ok], with a live root at slot 0 whose opcode is
+    pOpIntScopeBlock: never a panic - in particular `detach(ObjectAt(obj.parentIndex), obj)` never sees a nil parent (an
+    object that is relocated is not a root: the only root the walk meets is the ScopeBlock at slot 0), and the append is
+    legal because insideSelf has just checked that the target scope is not the object or one of its descendants - and
+    [R], both invariants and the live root hold again.  Fuel exhaustion is not excluded. *)
+Theorem C12_parse_total_partial_nopanic_relocateNamedObjects :
+  forall (fuel : nat) (s : pstate) (g : ghost),
+    R (p_tree s) g ->
+    (forall i o, TreeSpec.get (p_tree s) i = Some o -> o_opcode o <> opFreed -> opInfo (o_infoIndex o) <> None) ->
+    pool_ok (p_tables s) (p_tree s) -> glive g 0 ->
+    (exists o, TreeSpec.get (p_tree s) 0 = Some o /\ o_opcode o = aml_pOpIntScopeBlock) ->
+    match relocateNamedObjects fuel 0 s with
+    | Ok (_, s') => exists g', R (p_tree s') g' /\
+        (forall i o, TreeSpec.get (p_tree s') i = Some o -> o_opcode o <> opFreed -> opInfo (o_infoIndex o) <> None) /\
+        pool_ok (p_tables s') (p_tree s') /\ glive g' 0
+    | Panic => False
+    | OutOfFuel => True
+    end.
+Proof. exact relocateNamedObjects_never_panics. Qed.
+Print Assumptions C12_parse_total_partial_nopanic_relocateNamedObjects.
